@@ -354,6 +354,160 @@ def run(cfg, chooser):
         w.close()
 
 
+# ------------------------------------------------------------------ connect() itself as the pending operation
+CONNECT_ENDINGS = ['cut', 'server-eof', 'client-eof', 'server-abort', 'server-close', 'silence', 'listener-closed-and-cut']
+
+
+def connect_case(k, ending, then_run):
+    """asyncssh.connect() against asyncssh.listen() over the virtual network; after k deliveries the
+    environment misbehaves.  connect() (and the run() that follows it) must return or raise -- with the
+    login timers as the last resort -- and nothing may be left running on either side."""
+    loop = P.fresh(0)
+    P.install_wire_labels()
+    viol = []
+    env = {}
+    try:
+        async def srv():
+            return await asyncssh.listen('srv.example', 22, server_factory=lambda: P.RecServer(env),
+                                         server_host_keys=[P.key('host')], login_timeout=40, keepalive_interval=0)
+        t = loop.create_task(srv())
+        loop.flush_all()
+        lst = t.result()
+        out = {}
+
+        async def cli():
+            conn = await asyncssh.connect('srv.example', 22, known_hosts=None, username='user', password='pw',
+                                          client_keys=None, agent_path=None, config=None, login_timeout=30,
+                                          keepalive_interval=0, kex_algs=['curve25519-sha256'])
+            out['conn'] = conn
+            if then_run:
+                try:
+                    out['run'] = await conn.run('cmd', check=False, encoding=None)
+                finally:
+                    conn.close()
+                    await conn.wait_closed()
+            return conn
+        ct = loop.create_task(cli())
+        steps = 0
+        acted = False
+        silent = False
+        while True:
+            loop.quiesce()
+            if steps == k and not acted:
+                acted = True
+                trs = [x for x in loop.transports if not x.lost]
+                cside = [x for x in trs if x.label.startswith('c>')]
+                sside = [x for x in trs if x.label.startswith('s<')]
+                sconns = [x.protocol for x in sside if hasattr(x.protocol, 'abort')]
+                if ending == 'cut' and cside:
+                    loop.cut(cside[0])
+                elif ending == 'server-eof' and cside:
+                    cside[0].peer.outq.clear()
+                    loop.call_soon(loop._deliver_eof, cside[0])
+                elif ending == 'client-eof' and sside:
+                    sside[0].peer.outq.clear()
+                    loop.call_soon(loop._deliver_eof, sside[0])
+                elif ending == 'server-abort' and sconns:
+                    sconns[0].abort()
+                elif ending == 'server-close' and sconns:
+                    sconns[0].close()
+                elif ending == 'listener-closed-and-cut':
+                    lst.close()
+                    if cside:
+                        loop.cut(cside[0])
+                elif ending == 'silence':
+                    # nothing is delivered any more: only the timers can end the wait
+                    for x in trs:
+                        x.paused = True
+                    for _ in range(6):
+                        loop.quiesce()
+                        if loop.next_timer() is None:
+                            break
+                        loop.advance()
+                    loop.quiesce()
+                    silent = True
+                    break
+                continue
+            d = loop.deliverable()
+            if not d:
+                if loop.pending_jobs():
+                    loop.fire_job(0)
+                    continue
+                break
+            loop.deliver(d[0])
+            steps += 1
+            if steps > 3000:
+                raise Livelock('too many deliveries')
+        for _ in range(6):
+            loop.quiesce()
+            if loop.next_timer() is None or ct.done():
+                break
+            loop.advance()
+            try:
+                loop.flush_all()
+            except Livelock:
+                raise
+        if silent and (ct.done() or 'conn' in out):
+            # the login completed before everything fell silent: with keepalives off nothing obliges either
+            # side to notice; waiting is legitimate and the paused pipes cannot carry a close
+            ct.cancel()
+            try:
+                loop.quiesce()
+            except Livelock:
+                pass
+            return {'viol': [], 'steps': steps, 'outcome': 'logged-in-before-silence'}
+        if not ct.done():
+            viol.append(('connect-hangs', 'connect()%s still pending after %s at step %d and all timers' % ('+run()' if then_run else '', ending, k)))
+        else:
+            exc = ct.exception() if not ct.cancelled() else 'cancelled'
+            out['exc'] = type(exc).__name__ if exc else None
+            if exc is None and not then_run:
+                conn = ct.result()
+                conn.close()
+                loop.flush_all()
+        lst.close()
+        loop.flush_all()
+        for _ in range(4):
+            if loop.next_timer() is None:
+                break
+            loop.advance()
+            loop.flush_all()
+        pend = loop.pending_tasks()
+        if pend:
+            viol.append(('task-pending', repr([getattr(x.get_coro(), '__qualname__', '?') for x in pend])[:300]))
+        live = [x.label for x in loop.transports if not x.lost and not x.closing]
+        if live and not silent:
+            viol.append(('transport-left-open', repr(live)))
+        owner_lost = [s.lost for s in env.get('servers', [])]
+        exc = loop.unretrieved()
+        if exc:
+            viol.append(('loop-exception', repr(exc[0].get('exception') or exc[0].get('message'))[:300]))
+        return {'viol': viol, 'steps': steps, 'outcome': out.get('exc', 'pending' if not ct.done() else None)}
+    except Livelock as exc:
+        return {'viol': [('livelock', str(exc))], 'steps': 0, 'outcome': 'livelock'}
+    finally:
+        P.done(loop)
+
+
+def connect_worker(job):
+    acc = core.Acc()
+    for k, ending, then_run in job:
+        obs = connect_case(k, ending, then_run)
+        acc.add(core.digest(('connect', k, ending, then_run, obs['outcome'])), transitions=obs['steps'] + 1,
+                sample={'connect_interrupted_after': k, 'by': ending, 'then_run': then_run, 'connect_outcome': obs['outcome']}
+                if k == 7 and ending in ('silence', 'cut') else None)
+        acc.count('connect-outcome:%s' % obs['outcome'])
+        for kind, detail in obs['viol']:
+            acc.violation('term:%s:connect:%s%s' % (kind, ending, ':run' if then_run else ''), '%s ; k=%d' % (detail, k),
+                          {'connect': [k, ending, then_run]})
+    return acc
+
+
+def connect_jobs():
+    cases = [(k, e, r) for r in (False, True) for e in CONNECT_ENDINGS for k in range(0, 34 if r else 26)]
+    return [cases[i::32] for i in range(32)]
+
+
 def worker(job):
     cfg, bound, prefix = job
     acc = core.Acc()
@@ -408,6 +562,7 @@ def main(tier, seed):
     js = jobs(tier)
     acc = core.pmap(worker, core.rotate(js, seed), chunksize=2)
     shutil.rmtree(SCRATCH, ignore_errors=True)
+    acc.merge(core.pmap(connect_worker, connect_jobs()))
     rule = ('client programs {exec via callback session, stream session with blocked drain/read, run, '
             'sftp with outstanding requests, sftp with a request abandoned by its caller before later ones, remote port forward listener, three concurrent remote forward requests '
             'against a slow server application} x server behaviours {echo, '
@@ -415,7 +570,9 @@ def main(tier, seed):
             'at every quiescent point the explorer may deliver either direction\'s next packet or inject '
             'one of {cut, close/abort/disconnect of either connection, close/abort/exit of the channel on '
             'either side}; all schedules with <= bound deviations; the run ends with loss of the '
-            'connection; distinct = distinct schedule')
+            'connection; distinct = distinct schedule.  connect() itself (and connect()+run()) against listen(): after '
+            'every number of deliveries the link is cut, either side sees EOF, the server aborts or closes, the '
+            'listener goes away, or everything falls silent and only the login timers remain')
     return core.finish(PROP, tier, seed, 'model_checking', acc, t0, rule,
                        {'deviation_bound': '2 for the exec program (quick) or all programs (thorough), else 1',
                         'jobs': len(js)},
@@ -425,6 +582,13 @@ def main(tier, seed):
 
 def replay(rep):
     r = rep['replay']
+    if 'connect' in r:
+        obs = connect_case(*r['connect'])
+        print(json.dumps(obs, indent=1, default=repr))
+        if obs['viol']:
+            print('VIOLATION property=%s replay=(given)' % PROP)
+            return 1
+        return 0
     obs = run(tuple(r['cfg']), core.Chooser(r['choices']))
     print(json.dumps({'cfg': r['cfg'], 'schedule': obs['trace'], 'violations': obs['viol']}, indent=1))
     if obs['viol']:
